@@ -304,7 +304,7 @@ func (c *call) newLit() string {
 const (
 	lamLT  = "(lambda (p q) (c14-lt p q))"
 	lamGT  = "(lambda (p q) (c14-lt q p))"
-	lamEQV = "(lambda (p q) (eql p q))"
+	lamEQV = "(lambda (p q) (equal p q))"
 )
 
 func (c *call) keyLit() string {
@@ -345,14 +345,14 @@ func (c *call) kwText(two bool) string {
 		b.WriteString(" :key " + c.keyLit())
 	}
 	switch c.test {
-	case "eql":
-		b.WriteString(" :test 'eql")
+	case "equal":
+		b.WriteString(" :test 'equal")
 	case "lam":
 		b.WriteString(" :test " + lamLT)
 	case "eqv":
 		b.WriteString(" :test " + lamEQV)
 	case "not":
-		b.WriteString(" :test-not 'eql")
+		b.WriteString(" :test-not 'equal")
 	}
 	if c.count != "" {
 		b.WriteString(" :count " + c.count)
@@ -375,7 +375,7 @@ func (c *call) predLit() string {
 	b := c.itemLit('b')
 	switch c.pred {
 	case "eq":
-		return "(lambda (e) (eql e " + b + "))"
+		return "(lambda (e) (equal e " + b + "))"
 	case "gt":
 		return "(lambda (e) (c14-lt " + b + " e))"
 	case "eq2":
